@@ -1,15 +1,14 @@
 SPECIFICATION Spec
 CONSTANTS
   Dgrams <- MCAllDgrams
-  Configs <- MCConfigsFull
-  MaxDgrams = 1
-  MaxBlocks = 2
+  Configs <- MCConfigsStatic
+  MaxDgrams = 0
+  MaxBlocks = 0
 INVARIANT TypeOK
 INVARIANT ReturnOnlyGenuine
+INVARIANT ReturnSound
 INVARIANT GenuineEnds
 INVARIANT SpoofCannotEnd
 INVARIANT VerdictTotal
 INVARIANT DeadlineRespected
-PROPERTY SkipKeepsListening
-PROPERTY EndIsFinal
 CHECK_DEADLOCK FALSE
